@@ -590,6 +590,7 @@ func runC19(c *Check) {
 	ruleNoTypedNilSigner(c, p, "C19-R15")
 	rulePassphraseHandedOverAsGiven(c, p, "C19-R16")
 	rulePersistedFieldsSurvive(c, p, "C19-R17", rootPath+"/pkg/signer")
+	ruleSignKeepsNoCallerBuffer(c, p, "C19-R18")
 	c.MinInstances("C19-R17", 1)
 	c.MinInstances("C19-R4", 2)
 }
@@ -1180,4 +1181,73 @@ func rulePassphraseHandedOverAsGiven(c *Check, p *Prog, rule string) {
 		c.Unk(rule, "key-file call sites", "", "", "anchor lost: no call of the key-file functions outside the signer package")
 	}
 	c.MinInstances(rule, 3)
+}
+
+// ruleSignKeepsNoCallerBuffer (C19-R18): Sign is handed a payload in the caller's buffer, which
+// the caller is free to reuse for the next payload. A signer that keeps the slice itself (a memo
+// of the last message stored by reference) compares the caller's buffer with itself later on, and
+// hands out the signature of an older payload for a newer one: a signature that does not verify
+// under the key the signer reports.
+func ruleSignKeepsNoCallerBuffer(c *Check, p *Prog, rule string) {
+	c.Doc(rule, "VP: no Sign method of a signer implementation stores its message parameter (or a slice of it) into the signer or into a package-level variable: what it remembers of a message is a copy.")
+	n := 0
+	for _, fn := range p.Funcs {
+		pk := fnPkg(fn)
+		if pk == nil || !strings.HasPrefix(pk.Pkg.Path(), rootPath+"/pkg/signer") || fn.Blocks == nil || fn.Name() != "Sign" || fn.Signature.Recv() == nil {
+			continue
+		}
+		var msg *ssa.Parameter
+		for _, prm := range fn.Params[1:] {
+			if prm.Type().String() == "[]byte" {
+				msg = prm
+			}
+		}
+		if msg == nil {
+			continue
+		}
+		n++
+		isMsg := func(v ssa.Value) bool {
+			for d := 0; d < 4 && v != nil; d++ {
+				if v == ssa.Value(msg) {
+					return true
+				}
+				switch x := v.(type) {
+				case *ssa.Slice:
+					v = x.X
+				case *ssa.ChangeType:
+					v = x.X
+				default:
+					return false
+				}
+			}
+			return false
+		}
+		kept := ""
+		for _, b := range fn.Blocks {
+			for _, in := range b.Instrs {
+				st, ok := in.(*ssa.Store)
+				if !ok || !isMsg(st.Val) {
+					continue
+				}
+				switch a := st.Addr.(type) {
+				case *ssa.FieldAddr:
+					kept = "stored into " + TermOf(a, &Ctx{Fn: fn}).String() + " @" + p.InstrPos(in)
+				case *ssa.Global:
+					kept = "stored into " + a.Name() + " @" + p.InstrPos(in)
+				case *ssa.IndexAddr:
+					kept = "stored into a container @" + p.InstrPos(in)
+				}
+			}
+		}
+		inst := fnShort(fn) + " ⟂ the caller's buffer is not kept"
+		if kept == "" {
+			c.OK(rule, inst, fnName(fn), p.Pos(fn.Pos()), "the message parameter is stored nowhere", true)
+		} else {
+			c.Bad(rule, inst, fnName(fn), p.Pos(fn.Pos()), "Sign keeps the caller's message slice itself ("+kept+"): when the caller reuses its buffer for the next payload, the remembered message changes with it, the comparison with it always matches, and the signer returns the previous payload's signature — a signature that does not verify under its own public key", nil)
+		}
+	}
+	if n == 0 {
+		c.Unk(rule, "anchor-count", "", "", "anchor lost: no Sign method in the signer packages")
+	}
+	c.MinInstances(rule, 2)
 }
